@@ -751,8 +751,13 @@ def parse_tree_to_objgraph(
 
                 if metaattr.ref and not metaattr.cont:
                     # If this is non-containing reference create ObjCrossRef
-                    p = metaattr.scope_provider
-                    rn = metaattr.match_rule_name
+                    # RREL provider and match rule of the reference written
+                    # at this assignment (the attribute may be assigned at
+                    # several places with different RREL expressions).
+                    p = getattr(node.rule, "_scope_provider", metaattr.scope_provider)
+                    rn = getattr(
+                        node.rule, "_match_rule_name", metaattr.match_rule_name
+                    )
                     value = ObjCrossRef(
                         obj_name=value,
                         cls=metaattr.cls,
@@ -782,8 +787,12 @@ def parse_tree_to_objgraph(
                             # If this is non-containing reference
                             # create ObjCrossRef
 
-                            p = metaattr.scope_provider
-                            rn = metaattr.match_rule_name
+                            p = getattr(
+                                node.rule, "_scope_provider", metaattr.scope_provider
+                            )
+                            rn = getattr(
+                                node.rule, "_match_rule_name", metaattr.match_rule_name
+                            )
                             value = ObjCrossRef(
                                 obj_name=value,
                                 cls=metaattr.cls,
